@@ -142,7 +142,8 @@ def check_master(case, ctx):
     case = dict(case, seed=seed)
     with patch.prf(stub):
         if case["via"] == "master_key":
-            st_, node = call(Prv.master_key, case["seed"], case["testnet"])
+            st_, node = call(Prv.master_key, bip39_seed=case["seed"], testnet=case["testnet"]) if case["testnet"] else \
+                call(Prv.master_key, case["seed"])
         elif case["via"] == "from_bip39_seed_bytes":
             st_, node = call(lambda: BaseWallet.from_bip39_seed_bytes(case["seed"], case["testnet"]).master)
         else:
